@@ -38,6 +38,7 @@ type Contract struct {
 	PanicsIf *Clause
 	Opts     map[string]string // free options: arith, nopanic, pure, ...
 	Asserts  []*Clause
+	Assumes  []*Clause
 	Used     bool
 }
 
@@ -64,6 +65,7 @@ type SpecSet struct {
 	Types   map[string]*TypeSpec
 	Ghosts  map[string]string // global ghost var -> sort  (key pkgpath.name)
 	Axioms  []*Clause
+	GInv    map[string][]*Clause // package path -> global invariants
 	Funs    map[string]*SpecFun // spec functions (uninterpreted or defined)
 	Sentinels map[string]bool
 }
@@ -78,7 +80,7 @@ type SpecFun struct {
 }
 
 func NewSpecSet() *SpecSet {
-	return &SpecSet{Funcs: map[string]*Contract{}, Types: map[string]*TypeSpec{}, Ghosts: map[string]string{}, Funs: map[string]*SpecFun{}, Sentinels: map[string]bool{}}
+	return &SpecSet{Funcs: map[string]*Contract{}, Types: map[string]*TypeSpec{}, Ghosts: map[string]string{}, Funs: map[string]*SpecFun{}, Sentinels: map[string]bool{}, GInv: map[string][]*Clause{}}
 }
 
 var reBlock = regexp.MustCompile(`(?s)/\*@(.*?)@\*/`)
@@ -114,7 +116,7 @@ func (ss *SpecSet) LoadFile(path, pkgPath string, trusted bool) error {
 
 var clauseKW = map[string]bool{"requires": true, "ensures": true, "modifies": true, "instantiate": true, "loop": true,
 	"ghost": true, "callback": true, "panics-iff": true, "invariant": true, "opt": true, "monitor": true, "assert": true,
-	"func": true, "type": true, "axiom": true, "specfun": true, "global": true, "sentinel": true, "package": true, "end": true}
+	"func": true, "type": true, "assumes": true, "global-invariant": true, "axiom": true, "specfun": true, "global": true, "sentinel": true, "package": true, "end": true}
 
 func (ss *SpecSet) parse(src, file, pkgPath string, trusted bool) error {
 	lines := strings.Split(src, "\n")
@@ -247,7 +249,7 @@ func (ss *SpecSet) parse(src, file, pkgPath string, trusted bool) error {
 				if len(f) != 2 {
 					return fmt.Errorf("%s:%d: ghost field needs name and sort", file, l.no)
 				}
-				curT.GhostField[f[0]] = strings.TrimSpace(f[1])
+				curT.GhostField[f[0]] = sortAlias(strings.TrimSpace(f[1]))
 			} else if cur != nil {
 				// ghost at return: name = expr | ghost at entry: ...
 				j := strings.Index(rest, ":")
@@ -269,7 +271,13 @@ func (ss *SpecSet) parse(src, file, pkgPath string, trusted bool) error {
 			if len(f) != 2 {
 				return fmt.Errorf("%s:%d: global needs name and sort", file, l.no)
 			}
-			ss.Ghosts[pkgPath+"."+f[0]] = f[1]
+			ss.Ghosts[pkgPath+"."+f[0]] = sortAlias(f[1])
+		case "global-invariant":
+			cl, err := mk("global-invariant", "", rest, l.no)
+			if err != nil {
+				return err
+			}
+			ss.GInv[pkgPath] = append(ss.GInv[pkgPath], cl)
 		case "sentinel":
 			for _, n := range strings.Fields(strings.ReplaceAll(rest, ",", " ")) {
 				if !strings.Contains(n, ".") {
@@ -309,7 +317,7 @@ func (ss *SpecSet) parse(src, file, pkgPath string, trusted bool) error {
 				for _, t := range strings.Split(rest[j+1:], ",") {
 					cur.Inst[tp] = append(cur.Inst[tp], strings.TrimSpace(t))
 				}
-			case "requires", "ensures", "assert":
+			case "requires", "ensures", "assert", "assumes":
 				cl, err := mk(kw, "", rest, l.no)
 				if err != nil {
 					return err
@@ -321,6 +329,8 @@ func (ss *SpecSet) parse(src, file, pkgPath string, trusted bool) error {
 					tgt.Ensures = append(tgt.Ensures, cl)
 				case "assert":
 					tgt.Asserts = append(tgt.Asserts, cl)
+				case "assumes":
+					tgt.Assumes = append(tgt.Assumes, cl)
 				}
 			case "panics-iff":
 				cl, err := mk(kw, "", rest, l.no)
@@ -445,18 +455,18 @@ func parseSpecFun(s string) (*SpecFun, error) {
 			return nil, fmt.Errorf("specfun param %q needs name and sort", p)
 		}
 		sf.Params = append(sf.Params, f[0])
-		sf.PSorts = append(sf.PSorts, f[1])
+		sf.PSorts = append(sf.PSorts, sortAlias(f[1]))
 	}
 	rest := strings.TrimSpace(s[j+1:])
 	if k := strings.Index(rest, "="); k >= 0 {
-		sf.Ret = strings.TrimSpace(rest[:k])
+		sf.Ret = sortAlias(strings.TrimSpace(rest[:k]))
 		e, err := ParseExpr(strings.TrimSpace(rest[k+1:]))
 		if err != nil {
 			return nil, err
 		}
 		sf.Body = e
 	} else {
-		sf.Ret = rest
+		sf.Ret = sortAlias(rest)
 	}
 	return sf, nil
 }
@@ -482,4 +492,13 @@ func splitTop(s string) []string {
 		out = append(out, t)
 	}
 	return out
+}
+
+var sortAliases = map[string]string{"IntArr": "(Array Int Int)", "BoolArr": "(Array Int Bool)", "IntSet": "(Array Int Bool)", "IntArr2": "(Array Int (Array Int Int))"}
+
+func sortAlias(s string) string {
+	if a, ok := sortAliases[s]; ok {
+		return a
+	}
+	return s
 }
